@@ -15,7 +15,7 @@ CONSTANTS
   MaxItems = 1
   Layouts = {}
   TableOnly = {"g1212"}
-  AttOpts = {"none", "c1", "c12", "c0", "c1e4"}
+  AttOpts = {"none", "c12", "c0", "c1e4"}
   OkRecomputed = TRUE
   ParentForcesChildDebug = FALSE
   PreOpts = {}
